@@ -18,13 +18,13 @@ reported (coverage.disagreements_checked).
 from __future__ import annotations
 
 import collections
+import multiprocessing as mp
 import time
 
 from vf import c17_lib as L
 from vf import c17_work as W
 from vf.common import Ctx
 from vf.common import HarnessError
-from vf.common import pmap
 
 LEVEL = 'translation_validation'
 
@@ -45,21 +45,73 @@ def _imports(with_cirq: bool) -> None:
         import cirq.contrib.qasm_import  # noqa: F401
 
 
+def _warmup(libs: tuple) -> None:
+    """Run one small case of every kind in the parent: whatever the code
+    under test and the oracles import or build lazily on first use (Lark
+    tables, Qiskit gate library, ply tables ...) is then inherited by every
+    forked worker instead of being paid again in each of them."""
+    W.work(('e2', QUICK_LEAVES, 1, '^', 0, 9))
+    W.work(('gd1', 0, 200))
+    W.work(('shadow',))
+    ops = [['CNOTGate', [0, 1], []], ['RXGate', [0], [0.3]]]
+    L.run_rt(2, ops)
+    L.run_rt(1, [['SqrtTGate', [0], []]])
+    for lib in libs:
+        L.run_tr(lib, 2, ops)
+    L.run_trq('cx', [0, 1], 3, 0)
+    L._DIFF_CACHE.clear()
+
+
+class _Workers:
+    """One pool of forked workers for the whole run.
+
+    Forking a process that has qiskit/bqskit/scipy loaded costs every child
+    seconds of copy-on-write page faults on its first task, so the pool is
+    created once (after the imports) instead of once per stage."""
+
+    def __init__(self, procs: int) -> None:
+        self.procs = max(1, procs)
+        self.pool = None
+        if self.procs > 1:
+            self.pool = mp.get_context('fork').Pool(self.procs)
+
+    def run(self, tasks: list, deadline: float | None, chunksize: int):
+        args = [(t, deadline) for t in tasks]
+        if self.pool is None:
+            for a in args:
+                yield W.guarded(a)
+        else:
+            yield from self.pool.imap_unordered(W.guarded, args,
+                                                chunksize=chunksize)
+
+    def close(self) -> None:
+        if self.pool is not None:
+            self.pool.terminate()
+            self.pool.join()
+
+
+_WORKERS: _Workers | None = None
+
+
 def _stage(ctx: Ctx, name: str, tasks: list, total: dict,
-           budget: float | None = None, chunksize: int = 1,
-           meanwhile=None) -> list:
+           budget: float | None = None, chunksize: int = 1) -> list:
     """Run tasks on the pool, merge into `total`, record a part."""
     t0 = time.time()
     deadline = None if budget is None else t0 + budget
     part = W.new_result(name)
     extra = []
     done = 0
-    for res in pmap(W.work, tasks, procs=ctx.procs, deadline=deadline,
-                    chunksize=chunksize):
+    assert _WORKERS is not None
+    # small chunks keep the time cap sharp, yet skipping thousands of
+    # overdue tasks must not cost one pipe round trip each
+    chunksize = max(chunksize, len(tasks) // (_WORKERS.procs * 16))
+    for status, res in _WORKERS.run(tasks, deadline, chunksize):
+        if status == 'skipped':
+            continue
+        if status != 'ok':
+            raise HarnessError(res)
         done += 1
         W.merge(part, res)
-        if done == 1 and meanwhile is not None:
-            meanwhile()
         if 'failing' in res:
             extra.extend(res['failing'])
     if done < len(tasks):
@@ -82,15 +134,28 @@ def _stage(ctx: Ctx, name: str, tasks: list, total: dict,
 
 
 def run(ctx: Ctx) -> None:
-    seed = ctx.seed
     quick = ctx.quick
     total = W.new_result('all')
     # cirq's importer costs ~12 s to load and ~0.1 s per program: thorough only
     libs = ('qiskit', 'pytket') if quick else W.LIBS
     t_imp = time.time()
     _imports(with_cirq=not quick)
+    L.registry()
+    _warmup(libs)
+    global _WORKERS
+    _WORKERS = _Workers(ctx.procs)
     ctx.part('setup', import_seconds=round(time.time() - t_imp, 1),
              translator_libraries=list(libs))
+    try:
+        _run(ctx, total, libs)
+    finally:
+        _WORKERS.close()
+        _WORKERS = None
+
+
+def _run(ctx: Ctx, total: dict, libs: tuple) -> None:
+    seed = ctx.seed
+    quick = ctx.quick
     reg = L.registry()
     info = L.registry_info()
     missing = [k for k in W.REDUCED_RT if k not in reg]
